@@ -21,10 +21,13 @@ type pNode struct {
 var c02Names = []string{"a", "b", "i"}
 
 type c02Gen struct {
-	budget int
-	lets   int
-	spec   int
+	budget  int
+	lets    int
+	spec    int
+	profile int // 0: the whole command grammar; 1: content blocks only (text, print, let content, call with a content param)
 }
+
+var c02BlockKinds = []int{0, 1, 5, 11}
 
 func (g *c02Gen) name() string { return c02Names[verifChoose(len(c02Names))] }
 
@@ -42,9 +45,18 @@ func (g *c02Gen) node(depth int) *pNode {
 	if depth == 0 {
 		kinds = 2 // leaves only at the maximum depth
 	}
-	k := verifChoose(kinds)
+	var k int
+	if g.profile == 1 && depth > 0 {
+		k = c02BlockKinds[verifChoose(len(c02BlockKinds))]
+	} else {
+		k = verifChoose(kinds)
+	}
 	switch k {
 	case 0:
+		if g.profile == 1 {
+			g.spec++
+			return &pNode{kind: 0, text: []string{"x", "y", "z", "w"}[g.spec%4]}
+		}
 		return &pNode{kind: 0, text: "x"}
 	case 1:
 		return &pNode{kind: 1, name: g.name()}
@@ -80,6 +92,8 @@ func (g *c02Gen) node(depth int) *pNode {
 		return &pNode{kind: 8, body: g.list(depth-1, 2)}
 	case 10:
 		return &pNode{kind: 10, name: c02Names[verifChoose(2)], body: g.list(depth-1, 1)}
+	case 11:
+		return &pNode{kind: 11, data: verifChoose(2), body: g.list(depth-1, 3)}
 	}
 	g.spec++ // (variety without a further fork)
 	return &pNode{kind: 9, text: []string{"{sp}", "{lb}", "{literal}{x}{/literal}", "{css c}", "{log}L{/log}", "{msg desc=\"d\"}m{/msg}"}[(g.spec+g.budget)%6]}
@@ -134,6 +148,12 @@ func c02Src(ns []*pNode) string {
 			s += "{if $" + n.name + "}{if $b}{if $l}" + c02Src(n.body) + "{/if}{/if}{/if}"
 		case 9:
 			s += n.text
+		case 11:
+			s += "{call .u"
+			if n.data == 1 {
+				s += " data=\"all\""
+			}
+			s += "}{param k}" + c02Src(n.body) + "{/param}{/call}"
 		}
 	}
 	return s
@@ -180,6 +200,28 @@ func (e *c02Env) print(k string) {
 func (e *c02Env) truthy(k string) bool {
 	v, ok := e.lookup(k)
 	return ok && refTruthy(v)
+}
+
+// callU appends what template .u renders on the callee's data:
+// [{$a ?: 'n'}|{$b ?: 'n'}|{$k ?: 'n'}{let $a: 'L'/}{$a}]
+func (e *c02Env) callU(callee *c02Env) {
+	callee.push()
+	callee.out = append(callee.out, '[')
+	for j, k := range []string{"a", "b", "k"} {
+		v, ok := callee.lookup(k)
+		_, isNull := v.(data.Null)
+		_, isUndef := v.(data.Undefined)
+		if !ok || isNull || isUndef {
+			callee.out = append(callee.out, 'n')
+		} else {
+			callee.out = append(callee.out, v.String()...)
+		}
+		if j < 2 {
+			callee.out = append(callee.out, '|')
+		}
+	}
+	callee.out = append(callee.out, "L]"...)
+	e.out = append(e.out, callee.out...)
 }
 
 func (e *c02Env) run(ns []*pNode) {
@@ -269,24 +311,24 @@ func (e *c02Env) run(ns []*pNode) {
 				}
 				callee.data[n.text] = v
 			}
-			// template .u: [{$a ?: 'n'}|{$b ?: 'n'}|{$k ?: 'n'}{let $a: 'L'/}{$a}]
-			callee.push()
-			callee.out = append(callee.out, '[')
-			for j, k := range []string{"a", "b", "k"} {
-				v, ok := callee.lookup(k)
-				_, isNull := v.(data.Null)
-				_, isUndef := v.(data.Undefined)
-				if !ok || isNull || isUndef {
-					callee.out = append(callee.out, 'n')
-				} else {
-					callee.out = append(callee.out, v.String()...)
-				}
-				if j < 2 {
-					callee.out = append(callee.out, '|')
+			e.callU(callee)
+		case 11:
+			callee := &c02Env{data: map[string]data.Value{}}
+			if n.data == 1 {
+				for k, v := range e.data {
+					callee.data[k] = v
 				}
 			}
-			callee.out = append(callee.out, "L]"...)
-			e.out = append(e.out, callee.out...)
+			saved := e.out
+			e.out = nil
+			e.block(n.body)
+			content := e.out
+			e.out = saved
+			if e.failed {
+				return
+			}
+			callee.data["k"] = data.String(content)
+			e.callU(callee)
 		case 7:
 			v, ok := e.lookup(n.name)
 			if !ok {
@@ -341,8 +383,15 @@ const c02Callee = "/** @param? a\n @param? b\n @param? k */\n{template .u autoes
 // the command grammar; data: a symbolic bool, b symbolic from {"p","q"}, l a list of length
 // llen, m a map. The real parse+render must produce exactly what the reference semantics
 // produces (same bytes, same error/no-error outcome).
-func H_program(depth, budget, llen int) {
-	g := &c02Gen{budget: budget}
+func H_program(depth, budget, llen int) { c02Run(depth, budget, llen, 0) }
+
+// H_programBlocks: the same with the generator restricted to content blocks (text, print, let
+// content, call with a content param, nested in each other), which reaches deeper nestings of
+// output redirection within the same budget.
+func H_programBlocks(depth, budget int) { c02Run(depth, budget, 1, 1) }
+
+func c02Run(depth, budget, llen, profile int) {
+	g := &c02Gen{budget: budget, profile: profile}
 	prog := g.list(depth, 3)
 	// fixed trailer: the params are printed after the generated body, so that anything the body
 	// leaks into the enclosing scope shows
